@@ -470,11 +470,13 @@ def gen_cases(ctx):
     cases = [json.loads(json.dumps(c)) for c in FIXED_CASES]
     cases += [gen_smap(rng, thorough) for _ in range(80 * k)]
     cyc = Cycle(rng)
+    k2, k = k, (2 if thorough else 1)       # the sweep's shapes cover their kinds by construction: thorough doubles them only
     cases += [gen_smap_vals(rng, cyc) for _ in range(12 * k)]      # >= 12 unusual values... per run; Cycle covers all of them
     cases += [gen_smap_kinds(rng, j) for j in range(8 * k)]          # 8 function kinds x 2, 6 argument kinds: all in every run
     cases += [gen_jobs_seq(rng, cyc) for _ in range(6 * k)]
     cases += [gen_numbering(rng) for _ in range(5 * k)]
     cases += [gen_sneakier(rng, "two-maps"), gen_sneakier(rng, "reenter")]
+    k = k2
     cases += [gen_init(rng, thorough, again=(j % 6 == 5), unusual=(j % 3 == 1)) for j in range(36 * k)]
     cases += [gen_emcee(rng) for _ in range(10 * k)]
     cases += [gen_jobs_case(rng, thorough, cyc, force=[None, None, None, "perm", "vals", "fail"][j % 6]) for j in range(50 * k)]
@@ -820,7 +822,8 @@ def coq_case(c, r):
     if k == "jobs_seq":
         terms = []
         for call, rr in zip(c["calls"], r["calls"]):
-            terms += coq_case(dict(call, kind="jobs"), rr)
+            one = coq_case(dict(call, kind="jobs"), rr)
+            terms += [one] if isinstance(one, str) else one
             terms.append(c_numbers([None] * len(rr["drawn"]), {"before": rr["numbering"]["before"] - len(rr["drawn"]),
                                                                   "numbers": rr["drawn"], "after": rr["numbering"]["before"]}))
         return terms
